@@ -69,4 +69,7 @@ example : ownerUid { now := 0, uid := 1000, gid := 1000, aux := [] } { uid := so
 /-- regenerated from the source on every run: the connection loop builds the authentication context inside its request loop, from that call's credential (the model's per-call identity) -/
 theorem gen_conn_loop_identity_per_call : Gen.connLoopAuthPerCall = true := by decide
 
+/-- regenerated from the source on every run: HandleCall copies the squashed identity into the request context for every flavor (AUTH_NONE runs as nobody, not as the zero value) -/
+theorem gen_identity_applied : Gen.handleCallAppliesIdentity = true := by decide
+
 end Props.C11
